@@ -311,7 +311,8 @@ def vat_aliases():
         res = {}
         for path in sorted(glob.glob(os.path.join(common.REPO, 'stdnum', '*', '__init__.py'))):
             cc = os.path.basename(os.path.dirname(path))
-            pkg = importlib.import_module('stdnum.' + cc)
+            # (fromlist makes Python import a real submodule vat.py too, independent of what was imported before)
+            pkg = __import__('stdnum.' + cc, globals(), locals(), ['vat'])
             mod = getattr(pkg, 'vat', None)
             if mod is not None and len(cc.rstrip('_')) == 2:
                 res[cc.rstrip('_').upper()] = mod
